@@ -90,6 +90,12 @@ def build_cases(quick):
                             inm.append(dict(kind="c06", sampler="rejection", N=N, rot=rot, acc=list(acc), path="inmem",
                                             opts=dict(return_logprobs=True, max_posterior_samples=mp, n_linear_samples=nlin,
                                                       return_all_logprobs=alp)))
+                            if nlin == 1 and not alp:
+                                # the file-path options given on the in-memory path (documented as unused there): whatever rows
+                                # come back must still carry their own values
+                                inm.append(dict(kind="c06", sampler="rejection", N=N, rot=rot, acc=list(acc), path="inmem",
+                                                opts=dict(return_logprobs=True, max_posterior_samples=mp, n_linear_samples=1,
+                                                          randomize_prior_order=True, n_prior_samples=N if mp is None else None, n_batches=2)))
                 # iterative, in memory and on the file paths
                 for nreq in (1, 2):
                     for ibs in (1, 2, N):
